@@ -74,6 +74,7 @@ structure ExecState where
   inflight     : List NId := []            -- client role: ids awaiting a response
   mailbox      : List NId := []            -- responses placed in ready channels, in order
   spawned      : List HandleOut := []      -- remote calls started (each runs `handler.handle`)
+  wire         : List Resp := []           -- response frames those calls put on the wire through `nextWriter`
   hasHandler   : Bool := true
   deriving Repr, DecidableEq, Inhabited
 
@@ -135,6 +136,18 @@ def handleResponse (s : ExecState) (id : NId) : Outcome :=
     .ok { s with mailbox := s.mailbox ++ [id], inflight := s.inflight.erase id }
   else .ok s                                        -- "client got unknown ID in response"
 
+/-- `handleCall`: the handler goroutine it starts writes through `c.nextWriter` only when the frame carries
+    an id; an id-less frame (a notification) runs with the discard writer, so whatever `handle` emits
+    for it — including the error object for an unknown method, bad params or a panic — never reaches
+    the wire.  Channel results are answered by the forwarder (`chanReg`), not through this writer. -/
+def wsWire (id : NId) (o : HandleOut) : Option Resp :=
+  if id == .nil then none else o.resp
+
+/-- What one inbound remote-call frame leads to: the outcome of `handle` plus the response frame on the wire. -/
+def wsCall (h : Handler) (req : Req) : HandleOut × Option Resp :=
+  let o := h.handle true req
+  (o, wsWire req.id o)
+
 /-- `frameExecutor` body for one buffer + `handleFrame`. -/
 def execFrame (h : Handler) (s : ExecState) (f : FrameIn) : Outcome :=
   if !f.decodable then .ok s                        -- "failed to unmarshal frame": continue
@@ -147,8 +160,9 @@ def execFrame (h : Handler) (s : ExecState) (f : FrameIn) : Outcome :=
       else if f.method = "xrpc.ch.close" then handleChanClose s f.params
       else if !s.hasHandler then .ok s              -- "handleCall on client with no reverse handler"
       else
-        let o := h.handle true ⟨id, f.method.toList, f.call⟩
+        let (o, w) := wsCall h ⟨id, f.method.toList, f.call⟩
         .ok { s with spawned := s.spawned ++ [o],
+                     wire := s.wire ++ w.toList,
                      handling := if id == .nil then s.handling else s.handling ++ [id] }
 
 def Outcome.isCrash : Outcome → Bool
